@@ -279,12 +279,30 @@ GENERATORS = {
 }
 
 
+def load_plugins():
+    """tools/gens/*.py may each define GENERATORS = {file name: (function(repo) -> text, {properties})};
+    they can import Source, ExprTr, Untranslatable, HEADER, single_return, strip_doc from this module (as `py2lean`)."""
+    import importlib.util, glob
+    sys.modules.setdefault("py2lean", sys.modules[__name__])
+    here = os.path.dirname(os.path.abspath(__file__))
+    for path in sorted(glob.glob(os.path.join(here, "gens", "*.py"))):
+        name = "py2lean_gen_" + os.path.basename(path)[:-3]
+        spec = importlib.util.spec_from_file_location(name, path)
+        mod = importlib.util.module_from_spec(spec)
+        spec.loader.exec_module(mod)
+        for k, v in getattr(mod, "GENERATORS", {}).items():
+            if k in GENERATORS:
+                raise SystemExit(f"duplicate generator for {k}")
+            GENERATORS[k] = v
+
+
 def main() -> int:
     ap = argparse.ArgumentParser()
     ap.add_argument("--repo", default="/repo")
     ap.add_argument("--out", default=os.path.join(os.path.dirname(os.path.abspath(__file__)), "..", "lean", "IrisVerif", "Generated"))
     ap.add_argument("--only", default="")
     a = ap.parse_args()
+    load_plugins()
     only = set(x for x in a.only.split(",") if x)
     rc = 0
     for fname, (fn, props) in GENERATORS.items():
